@@ -28,6 +28,7 @@ const (
 	EvPanic
 	EvLoop // entering a loop body
 	EvDefer
+	EvIndex // evaluation of x[i] / x[a:b] on a slice, array or string
 )
 
 type Event struct {
@@ -52,7 +53,8 @@ type Event struct {
 	Old    *Term // value of the variable / field before the write
 	Base   *Term // term of the struct before the write
 
-	Loop ast.Stmt // innermost enclosing loop statement when the event was emitted
+	Loop  ast.Stmt // innermost enclosing loop statement when the event was emitted
+	Local []Fact   // facts implied by short-circuit evaluation (index events)
 }
 
 type ExitKind int
